@@ -198,6 +198,23 @@ func generate(cfg *hx.Config) []hx.Case {
 			add(mk(fmt.Sprintf("h-%sW%d", up, i), stateScript("mid", 0), []string{fmt.Sprintf("%sW%d", up, i)}), "mid", "wrong-stream-or-size")
 		}
 	}
+	// 4e'. SETTINGS_MAX_FRAME_SIZE outside [16384, 2^24-1] (RFC 7540 6.5.2: connection error). Value 0 used to
+	//      make relay.data() split for ever; 1..4 wrapped the header fragment length.
+	for _, sd := range []string{"c", "s"} {
+		for _, v := range []string{"0", "1", "16383", "16777216", "4294967295"} {
+			for _, pos := range []string{"a", "l"} {
+				add(mk(fmt.Sprintf("h-%smf%s%s", sd, v, pos), stateScript("mid", 0), []string{fmt.Sprintf("%smf:%s:%s", sd, v, pos)}), "mid", "bad-max-frame-size")
+			}
+		}
+		st := map[string]string{"c": "blkC", "s": "blkS"}[sd]
+		ot := map[string]string{"c": "blkS", "s": "blkC"}[sd]
+		for _, v := range []string{"0", "16383"} {
+			add(mk(fmt.Sprintf("h-%smf%s-%s", sd, v, st), stateScript(st, 5), []string{fmt.Sprintf("%smf:%s:a", sd, v)}), st, "bad-max-frame-size")
+			add(mk(fmt.Sprintf("h-%smf%s-%s", sd, v, ot), stateScript(ot, 5), []string{fmt.Sprintf("%smf:%s:l", sd, v)}), ot, "bad-max-frame-size")
+		}
+		// legal boundary values are forwarded and change nothing for termination
+		add(mk(fmt.Sprintf("h-%smf-legal", sd), stateScript("mid", 0), []string{fmt.Sprintf("%smf:16384:a", sd), fmt.Sprintf("%smf:16777215:l", sd), "cd:1:1:10", "sd:1:1:10", "SC"}), "mid", "legal-max-frame-size,SC")
+	}
 	// 4f. a write toward the client fails while ONE processFrame call of the server->client reader is emitting more
 	//     frames than its output channel holds (a DATA frame larger than 16 x 16384 is split by relay.data): the
 	//     writer must keep draining or the reader stays in emitEligibleFrames with nobody to release it
